@@ -73,6 +73,8 @@ TARGETS = [
     ("GearTrain", "update", "g_gear_update"),
     ("Differential", "update", "g_diff_update"),
     ("Axle", "update", "g_axle_update"),
+    ("GearTrain", "new", "g_gear_new"), ("GearTrain", "with_ratio", "g_gear_with_ratio"), ("GearTrain", "with_ratio_raw", "g_gear_with_ratio_raw"),
+    ("Invert", "new", "g_invert_new"), ("Differential", "new", "g_diff_new"), ("Differential", "with_distrust", "g_diff_with_distrust"),
     # src/motion_profile.rs: the if-chains over the phase boundaries and the History impl (the three numeric accessors inlined)
     ("MotionProfile", "get_piece", "g_mp_get_piece"),
     ("MotionProfile", "get_mode", "g_mp_get_mode"),
@@ -156,6 +158,8 @@ def main(repo, outdir, consts):
                 em.t_default = "(ELit (VF fzero))"        # the generic impl at T = f32 (f32::default() = 0.0)
             if key.startswith("MovingAverageStream"):
                 em.vec_index = True
+            if key == "GearTrain" and fn == "new":
+                em.const_generics = {"N": "(ELen (EVar \"teeth\"))"}; em.vec_index = True
             if key == "PIDWrapper":
                 # every object behind a Reference is external here: they alias each other (set up in `new`), which the
                 # tree-shaped state of the embedding cannot express; what the body does to them, in which order, is what is proved
